@@ -186,7 +186,7 @@ func ParseContracts(pkgPath, filename string, file *ast.File, fsetLine func(ast.
 					return nil, fmt.Errorf("%s:%d: clause outside contract", filename, line)
 				}
 				parts := strings.Fields(rest)
-				if len(parts) < 3 || (parts[1] != "invariant" && parts[1] != "step" && parts[1] != "opaque" && parts[1] != "writes") {
+				if len(parts) < 3 || (parts[1] != "invariant" && parts[1] != "step" && parts[1] != "opaque" && parts[1] != "writes" && parts[1] != "complete") {
 					return nil, fmt.Errorf("%s:%d: expected 'loop <n> invariant|step <expr>'", filename, line)
 				}
 				n, err := strconv.Atoi(parts[0])
